@@ -2,7 +2,16 @@
 
 package fsnotify
 
-import "os"
+import (
+	"os"
+	"reflect"
+	"sync"
+	"unsafe"
+)
+
+// The snapshot helpers below look the back end's fields up by name through
+// reflection, so that this file keeps compiling (and reports "unavailable"
+// instead) when the bookkeeping is restructured.
 
 // VerifWatch is a copy of one entry of the inotify wd table.
 type VerifWatch struct {
@@ -24,37 +33,98 @@ type VerifTablesSnapshot struct {
 	Path        map[string]uint32
 	Cookies     [10]VerifCookie
 	CookieIndex uint8
+	// Unavailable is set when the tables could not be read (fields renamed or
+	// restructured); RingUnavailable likewise for the cookie ring.
+	Unavailable     bool
+	RingUnavailable bool
 }
 
-// VerifFd returns the inotify descriptor number of w.
-func VerifFd(w *Watcher) int { return w.b.(*inotify).fd }
+func verifBackend(w *Watcher) reflect.Value {
+	v := reflect.ValueOf(w.b)
+	for v.Kind() == reflect.Ptr || v.Kind() == reflect.Interface {
+		v = v.Elem()
+	}
+	return v
+}
+
+func verifDeref(v reflect.Value) reflect.Value {
+	for v.IsValid() && (v.Kind() == reflect.Ptr || v.Kind() == reflect.Interface) {
+		if v.IsNil() {
+			return reflect.Value{}
+		}
+		v = v.Elem()
+	}
+	return v
+}
+
+func verifLocker(b reflect.Value) (l sync.Locker) {
+	defer func() {
+		if recover() != nil {
+			l = nil
+		}
+	}()
+	mu := verifDeref(b.FieldByName("shared")).FieldByName("mu")
+	return reflect.NewAt(mu.Type(), unsafe.Pointer(mu.UnsafeAddr())).Interface().(sync.Locker)
+}
+
+// VerifFd returns the inotify descriptor number of w (-1 if it cannot be read).
+func VerifFd(w *Watcher) (fd int) {
+	defer func() {
+		if recover() != nil {
+			fd = -1
+		}
+	}()
+	return int(verifBackend(w).FieldByName("fd").Int())
+}
 
 // VerifTables copies both watch tables and the cookie ring. With lock set the
 // copy is taken under the same mutex the backend uses.
-func VerifTables(w *Watcher, lock bool) VerifTablesSnapshot {
-	b := w.b.(*inotify)
+func VerifTables(w *Watcher, lock bool) (s VerifTablesSnapshot) {
+	s.Wd, s.Path = map[uint32]VerifWatch{}, map[string]uint32{}
+	b := verifBackend(w)
 	if lock {
-		b.mu.Lock()
-		defer b.mu.Unlock()
-	}
-	s := VerifTablesSnapshot{
-		Wd:          make(map[uint32]VerifWatch, len(b.watches.wd)),
-		Path:        make(map[string]uint32, len(b.watches.path)),
-		CookieIndex: b.cookieIndex,
-	}
-	for k, v := range b.watches.wd {
-		if v == nil {
-			s.Wd[k] = VerifWatch{Wd: ^uint32(0), Path: "<nil>"}
-			continue
+		if l := verifLocker(b); l != nil {
+			l.Lock()
+			defer l.Unlock()
 		}
-		s.Wd[k] = VerifWatch{Wd: v.wd, Flags: v.flags, Path: v.path, Recurse: v.recurse}
 	}
-	for k, v := range b.watches.path {
-		s.Path[k] = v
-	}
-	for i, c := range b.cookies {
-		s.Cookies[i] = VerifCookie{Cookie: c.cookie, Path: c.path}
-	}
+	func() {
+		defer func() {
+			if recover() != nil {
+				s.Unavailable = true
+				s.Wd, s.Path = map[uint32]VerifWatch{}, map[string]uint32{}
+			}
+		}()
+		ws := verifDeref(b.FieldByName("watches"))
+		it := ws.FieldByName("wd").MapRange()
+		for it.Next() {
+			k := uint32(it.Key().Uint())
+			v := verifDeref(it.Value())
+			if !v.IsValid() {
+				s.Wd[k] = VerifWatch{Wd: ^uint32(0), Path: "<nil>"}
+				continue
+			}
+			s.Wd[k] = VerifWatch{Wd: uint32(v.FieldByName("wd").Uint()), Flags: uint32(v.FieldByName("flags").Uint()),
+				Path: v.FieldByName("path").String(), Recurse: v.FieldByName("recurse").Bool()}
+		}
+		it = ws.FieldByName("path").MapRange()
+		for it.Next() {
+			s.Path[it.Key().String()] = uint32(it.Value().Uint())
+		}
+	}()
+	func() {
+		defer func() {
+			if recover() != nil {
+				s.RingUnavailable = true
+			}
+		}()
+		ring := b.FieldByName("cookies")
+		for i := 0; i < ring.Len() && i < len(s.Cookies); i++ {
+			c := ring.Index(i)
+			s.Cookies[i] = VerifCookie{Cookie: uint32(c.FieldByName("cookie").Uint()), Path: c.FieldByName("path").String()}
+		}
+		s.CookieIndex = uint8(b.FieldByName("cookieIndex").Uint())
+	}()
 	return s
 }
 
@@ -64,10 +134,17 @@ func VerifNewEvent(name string, mask, cookie uint32) Event {
 }
 
 // VerifSetInotifyFile substitutes the file the reader goroutine reads from
-// (used to feed crafted inotify_event records); returns the previous one.
-func VerifSetInotifyFile(w *Watcher, f *os.File) *os.File {
-	b := w.b.(*inotify)
-	old := b.inotifyFile
-	b.inotifyFile = f
+// (used to feed crafted inotify_event records); returns the previous one, or
+// nil if the field is not there.
+func VerifSetInotifyFile(w *Watcher, f *os.File) (old *os.File) {
+	defer func() {
+		if recover() != nil {
+			old = nil
+		}
+	}()
+	fld := verifBackend(w).FieldByName("inotifyFile")
+	p := (**os.File)(unsafe.Pointer(fld.UnsafeAddr()))
+	old = *p
+	*p = f
 	return old
 }
